@@ -299,9 +299,11 @@ def _addressing(ty):
     return None
 
 
-def view_consistency(S):
+def view_consistency(S, absolute=True):
     """Static oracle: a memref.subview with static offsets / sizes / strides addresses, through its result type, exactly the
-    elements of its source (addressed through the source's type) it stands for.  Both types anchor at the same allocation."""
+    elements of its source (addressed through the source's type) it stands for.  Both types anchor at the same allocation.
+    absolute=False: only the positions relative to the first element of the view are compared (where the pass itself
+    retypes the view and where the view starts is left to the run-time descriptor)."""
     from xdsl.dialects import memref
 
     for op in S.walk():
@@ -315,9 +317,11 @@ def view_consistency(S):
         shape = list(op.result.type.get_shape())
         if src is None or res is None or len(shape) != len(offs) or any(d < 0 for d in shape):
             continue
+        w0 = 0 if absolute else src(list(offs))
+        g0 = 0 if absolute else res([0] * len(shape))
         for idx in all_indices(shape):
-            want = src([o + i * st for o, i, st in zip(offs, idx, strs)])
-            got = res(idx)
+            want = src([o + i * st for o, i, st in zip(offs, idx, strs)]) - w0
+            got = res(idx) - g0
             if want != got:
                 return (f"memref.subview of a buffer of type {op.source.type}: element {tuple(idx)} of the view lies at element address {want} of the buffer, "
                         f"the result type {op.result.type} puts it at {got}")
@@ -467,6 +471,29 @@ def const_program(case):
             f'  %1 = "snax.layout_cast"(%0) : (memref<{sh}x{el}, "L1">) -> memref<{sh}x{el}, {tsl}, "L1">\n'
             f'  "test.op"(%1) : (memref<{sh}x{el}, {tsl}, "L1">) -> ()\n}}'
         )
+    elif case["kind"] == "global-subview":
+        # a window of a larger global (case["mult"] times as many rows), cast to the tiled layout: offset aligned to the window
+        # size, or not
+        mult, off0 = case.get("mult", 2), case.get("off0", 0)
+        off0 = min(off0, (mult - 1) * shape[0])  # the window lies inside the global
+        gshape = [shape[0] * mult] + shape[1:]
+        gn = n * mult
+        gvals = [(v * case["mul"] + 1) % (100 if el == "i8" else 100000) for v in range(gn)]
+        gsh = "x".join(map(str, gshape))
+        strides = [1] * len(shape)
+        for i in range(len(shape) - 2, -1, -1):
+            strides[i] = strides[i + 1] * gshape[i + 1]
+        gl3 = f'memref<{gsh}x{el}, "L3">'
+        vty = f'memref<{sh}x{el}, strided<[{", ".join(map(str, strides))}], offset: {off0 * strides[0]}>, "L3">'
+        glob2 = f'  "memref.global"() <{{alignment = 64 : i64, constant, initial_value = dense<{nested(gvals, gshape)}> : tensor<{gsh}x{el}>, sym_name = "g", sym_visibility = "private", type = memref<{gsh}x{el}>}}> : () -> ()\n'
+        offs = ", ".join([str(off0)] + ["0"] * (len(shape) - 1))
+        src = (
+            f'builtin.module {{\n{glob2}  %0 = memref.get_global @g : {gl3}\n'
+            f'  %s = memref.subview %0[{offs}] [{", ".join(map(str, shape))}] [{", ".join(["1"] * len(shape))}] : {gl3} to {vty}\n'
+            f'  %1 = "snax.layout_cast"(%s) : ({vty}) -> {l3t}\n  "test.op"(%1) : ({l3t}) -> ()\n}}'
+        )
+        first = off0 * (n // shape[0])
+        return src, gvals[first : first + n], shape
     elif case["kind"] == "const-subview":
         # the constant is also read through a subview (its first row / first element block) by another consumer
         l1 = f'memref<{sh}x{el}, "L1">'
@@ -585,6 +612,21 @@ def logical_values(value, S, shape, eb, depth=0):
         return decode(g.initial_value, value.type)
     if isinstance(op, (LayoutCast, memref.MemorySpaceCastOp)):
         return logical_values(op.source, S, shape, eb, depth + 1)
+    if isinstance(op, memref.SubviewOp) and not (op.offsets or op.sizes or op.strides):
+        # a static window: the logical elements of the source it stands for (that its result type addresses exactly those is
+        # the view-layout oracle's matter)
+        sshape = list(op.source.type.get_shape())
+        svals = logical_values(op.source, S, sshape, eb, depth + 1)
+        offs = [int(x) for x in op.static_offsets.get_values()]
+        strs = [int(x) for x in op.static_strides.get_values()]
+        sizes = [int(x) for x in op.static_sizes.get_values()]
+        out_vals = []
+        for idx in all_indices(sizes):
+            pos = 0
+            for d, (o, i, st) in enumerate(zip(offs, idx, strs)):
+                pos = pos * sshape[d] + (o + i * st)
+            out_vals.append(svals[pos])
+        return out_vals
     if isinstance(op, memref.AllocOp):
         for o in S.walk():
             if isinstance(o, memref.CopyOp) and o.destination is value:
@@ -651,7 +693,7 @@ def run_const(case, out):
     out["runs"] = out["zero_fault_runs"] = 1
     eb = {"i8": 1, "i32": 4}[case["el"]]
     t = compat.text(S)
-    bad_view = view_consistency(S)
+    bad_view = view_consistency(S, absolute=case["kind"] != "global-subview")
     if bad_view:
         out.update(status="violation", oracle="view-layout", message=bad_view)
         return out
@@ -683,7 +725,8 @@ def gen_case(rng, tier):
         depth = [rng.choice([1, 2, 2, 3]) for _ in range(rank)]
         tb = [[rng.choice([1, 2, 2, 3, 4]) for _ in range(depth[d])] for d in range(rank)]
         return {"fam": "const", "tb": tb, "steps": gen_steps(rng, tb, pad=False), "steps2": gen_steps(rng, tb, pad=False), "el": rng.choice(["i8", "i32"]),
-                "kind": rng.choice(["const", "const", "const-two-layouts", "const-chain", "const-subview", "global", "global", "global-two-gets", "global-two-casts", "global-two-funcs", "global-two-layouts", "global-chain", "global-msc-two-layouts"]), "mul": rng.choice([1, 3, 7])}
+                "mult": rng.choice([1, 2, 3]), "off0": rng.choice([0, 0, 1, 2]),
+                "kind": rng.choice(["const", "const", "const-two-layouts", "const-chain", "const-subview", "global-subview", "global-subview", "global", "global", "global-two-gets", "global-two-casts", "global-two-funcs", "global-two-layouts", "global-chain", "global-msc-two-layouts"]), "mul": rng.choice([1, 3, 7])}
     accum = rng.choice([0, 0, 0, 0.3])
     uninit = rng.choice([0, 0, 0, 0.4])
     dyn = rng.random() < 0.15
